@@ -291,3 +291,73 @@ Proof.
       * clear - Hc Hf. lia.
       * clear - Hc Hf'. lia.
 Qed.
+
+(* ---------- (e) splitting the loop ---------- *)
+Lemma dbp_go_split bits : forall f a b s,
+  0 < d_per s -> N.of_nat (a + b) <= d_rem s -> (a + b <= f)%nat ->
+  dbp_go bits f (a + b) s =
+  ('(v1, s1) <- dbp_go bits f a s ;; '(v2, s2) <- dbp_go bits f b s1 ;; Ok (v1 ++ v2, s2)).
+Proof.
+  induction f as [|f IH]; intros a b s Hper Hrem Hf.
+  - assert (Ha : a = O) by (clear - Hf; lia). assert (Hb : b = O) by (clear - Hf; lia).
+    subst a b. cbn [Nat.add]. rewrite !dbp_go_0. reflexivity.
+  - destruct a as [|a].
+    { cbn [Nat.add]. rewrite (dbp_go_0 bits (S f) s). cbn [bind].
+      destruct (dbp_go bits (S f) b s) as [[v s2]| | |]; reflexivity. }
+    destruct b as [|b].
+    { rewrite Nat.add_0_r.
+      destruct (dbp_go bits (S f) (S a) s) as [[v1 s1]| | |]; cbn [bind]; try reflexivity.
+      rewrite dbp_go_0. cbn [bind]. rewrite app_nil_r. reflexivity. }
+    change (S a + S b)%nat with (S (a + S b)) in *.
+    assert (Er : (d_rem s =? 0) = false) by (clear - Hrem; lia).
+    rewrite (dbp_go_S bits f (a + S b) s Er), (dbp_go_S bits f a s Er).
+    rewrite bind_assoc.
+    destruct (dbp_prep bits s) as [s2| | |] eqn:E2; cbn [bind]; try reflexivity.
+    apply dbp_prep_ok in E2; [|exact Hper]. destruct E2 as [P1 [P2 [P3 [P4 P5]]]].
+    cbv zeta.
+    remember (N.to_nat (d_per s2 - d_mb_val s2)) as r eqn:Er2.
+    assert (Hr : (1 <= r)%nat) by (clear - Er2 P4; lia).
+    destruct (Nat.ltb (S a) r) eqn:Ear.
+    + (* the first read stops inside the miniblock *)
+      remember (Nat.min (S b) (r - S a)) as c eqn:Ec.
+      replace (Nat.min (S (a + S b)) r) with (S a + c)%nat by (clear - Ec Ear; lia).
+      replace (Nat.min (S a) r) with (S a) by (clear - Ear; lia).
+      replace (S a - S a)%nat with O by (clear; lia).
+      assert (Hmv : d_mb_val s2 + N.of_nat (S a) < d_per s2) by (clear - Er2 Ear P4; lia).
+      rewrite dbp_step_split; [|exact Hmv|rewrite P1; clear - Hrem Ec; lia].
+      rewrite !bind_assoc.
+      destruct (dbp_step bits (S a) s2) as [[v1 sa]| | |] eqn:Ea; cbn [bind]; try reflexivity.
+      pose proof (dbp_step_partial bits (S a) s2 v1 sa Hmv Ea) as [Q1 [Q2 Q3]].
+      apply dbp_step_ok in Ea. destruct Ea as [S1 [S2 [S3 [S4 S5]]]].
+      rewrite dbp_go_0. cbn [bind].
+      rewrite (dbp_go_S bits f b sa) by (rewrite S3, P1; clear - Hrem; lia).
+      rewrite dbp_prep_stable;
+        [|rewrite Q1, S4; exact Hmv|rewrite Q2, Q3; exact P5|rewrite Q1; clear; lia].
+      cbn [bind]. cbv zeta.
+      replace (Nat.min (S b) (N.to_nat (d_per sa - d_mb_val sa))) with c
+        by (rewrite Q1, S4; clear - Ec Er2 Ear; lia).
+      rewrite !bind_assoc.
+      destruct (dbp_step bits c sa) as [[v2 sb]| | |]; cbn [bind]; try reflexivity.
+      replace (S (a + S b) - (S a + c))%nat with (S b - c)%nat by (clear - Ec; lia).
+      rewrite !bind_assoc.
+      destruct (dbp_go bits f (S b - c) sb) as [[rest s4]| | |]; cbn [bind]; try reflexivity.
+      rewrite app_nil_r, app_assoc. reflexivity.
+    + (* the first read finishes the miniblock *)
+      replace (Nat.min (S (a + S b)) r) with r by (clear - Ear; lia).
+      replace (Nat.min (S a) r) with r by (clear - Ear; lia).
+      rewrite !bind_assoc.
+      destruct (dbp_step bits r s2) as [[v1 s3]| | |] eqn:E3; cbn [bind]; try reflexivity.
+      apply dbp_step_ok in E3. destruct E3 as [S1 [S2 [S3 [S4 S5]]]].
+      replace (S (a + S b) - r)%nat with ((S a - r) + S b)%nat by (clear - Ear; lia).
+      assert (Hper3 : 0 < d_per s3) by (rewrite S4, P2; exact Hper).
+      rewrite IH; [|exact Hper3|rewrite S3, P1; clear - Hrem Ear Hr; lia|clear - Hf Ear Hr; lia].
+      rewrite !bind_assoc.
+      destruct (dbp_go bits f (S a - r) s3) as [[v1' s1]| | |] eqn:E4; cbn [bind]; try reflexivity.
+      apply dbp_go_shape in E4;
+        [|exact Hper3|rewrite S3, P1; clear - Hrem Ear Hr; lia|clear - Hf Ear Hr; lia].
+      destruct E4 as [G1 [G2 [G3 G4]]].
+      rewrite (dbp_go_fuel bits f (S f) (S b) s1);
+        [|rewrite G3; exact Hper3|clear - Hf Ear Hr; lia|clear - Hf Ear Hr; lia].
+      destruct (dbp_go bits (S f) (S b) s1) as [[v2 s2']| | |]; cbn [bind]; try reflexivity.
+      rewrite app_assoc. reflexivity.
+Qed.
